@@ -69,7 +69,7 @@ type G struct {
 }
 
 var plainWords = []string{"alpha", "beta", "gamma", "delta", "eps", "zeta", "eta", "theta", "iota", "kappa", "lam", "mu", "nu", "xi", "omi", "pi", "rho", "sig", "tau", "ups"}
-var weirdBits = []string{" ", "ü", "é-", "中", "+", "@", "#", "~", ",", "=", "'", "%", "%s", "%20", "&", ";", "!"}
+var weirdBits = []string{" ", "ü", "é-", "中", "+", "@", "#", "~", ",", "=", "'", "%", "%s", "%20", "&", ";", "!", "e\u0301", "A\u030a"} // the last two: decomposed (NFD) spellings
 var metaBits = []string{"{", "}", "[", "]", "*", "?"}
 
 // word returns a path component. level: 0 plain, 1 may contain spaces/unicode,
